@@ -66,6 +66,7 @@ class C10(Prop):
                    'hits are driven through TriggerHandler.trace_call on suspended-generator frames of a host module']
     quick_examples = 1200
     thorough_examples = 6000
+    fuzz_runs = 15000
     floors = {'reject_then_accept': 0.1, 'failing_condition': 0.08, 'host_global_watch': 0.1,
               'agent_only_watch': 0.08, 'local_shadows_global': 0.2}
 
